@@ -3,6 +3,8 @@ and names that collide with the prefixes the MxlPy source generator invents."""
 
 from __future__ import annotations
 
+import mon.fnlib.cfg_slow as cfg  # (t_localcfg binds the same name to another module inside its body)
+
 
 def t_ma1(k: float, s: float) -> float:
     return k / (1.0 + s)
@@ -47,6 +49,16 @@ class Settings:
 
 def t_modconst(s: float, k: float) -> float:
     return k * s / (KSAT + s)
+
+
+def t_localcfg(s: float, k: float) -> float:
+    import mon.fnlib.cfg_fast as cfg
+
+    return cfg.K * k * s
+
+
+def t_modulecfg(s: float, k: float) -> float:
+    return cfg.K * k + s
 
 
 def t_modattr(s: float, k: float) -> float:
